@@ -46,7 +46,8 @@ def build_report(assign, repo=False):
             continue
         for i, lens in enumerate(FIGS[fig]):
             ms = [Measurement(f"fn_{lang}_{i}_{j}", Location(1 + 80 * j, 1), Location(2 + 80 * j, 2), L) for j, L in enumerate(lens)]
-            cb.add_file(SourceFileEntry(f"{lang.lower()}/f{i}.x", "s", lang, sum(lens), ms))
+            # the stored line total is a figure of its own (C08): equal to, above or below the sum of the function lengths
+            cb.add_file(SourceFileEntry(f"{lang.lower()}/f{i}.x", "s", lang, max(0, sum(lens) + (0, 4, -3)[i % 3]), ms))
     cb.aggregate()
     return Report(cb, GithubRepository("o", "n", branch="main") if repo else None)
 
